@@ -24,7 +24,7 @@ def run(ctx):
     samples = []
 
     # ------------------------------------------------------------------ model
-    max_enq = 40 if thorough else 24
+    max_enq = 72 if thorough else 24
     # same spec and config for both tiers, only the bound differs
     ring_cfg = ctx.path("MC_Ring_run.cfg")
     cfgtxt = open(os.path.join(vlib.SPEC, "MC_Ring.cfg")).read().replace("MaxEnq = 40", "MaxEnq = %d" % max_enq)
@@ -77,7 +77,7 @@ def run(ctx):
     samples.append({"stack_history": behs[len(behs) // 2] if behs else None})
 
     # ------------------------------------------- code -> spec: random histories
-    nh = 400 if thorough else 120
+    nh = 1500 if thorough else 120
     ctx.harness(["containers", "record", "--n", nh, "--len", 600 if thorough else 300, "--out", ctx.path("ctrace.ndjson")])
     t = ctx.tlc("ContainersTrace", files=[("trace.ndjson", ctx.path("ctrace.ndjson"))], workers=1,
                 label="ContainersTrace (random histories)", timeout=900)
@@ -123,7 +123,7 @@ def run(ctx):
             raise vlib.MachineryError("tlapm timed out on IndentBalance.tla")
 
     # ------------------------------------------ indentation: real token streams
-    ninputs = 6000 if thorough else 1200
+    ninputs = 25000 if thorough else 1200
     ctx.harness(["lex", "corpus", "--n", ninputs, "--out", ctx.path("lexin.ndjson"),
                  "--testdata", os.path.join(ctx.copy_repo(), "testdata")])
     ctx.harness(["lex", "record", "--in", ctx.path("lexin.ndjson"), "--out", ctx.path("lextrace.ndjson")])
